@@ -91,6 +91,7 @@ class Unit:
         self.banks = {b.number: b for b in (banks or [])}
         self.write_enable = False
         self.freeze_dtr0 = False          # fault: DTR0 does not advance
+        self.freeze_after = set()         # fault: DTR0 does not advance after these data writes (by index)
         self.answer_faults = {}           # memory write count -> "no" | "other" | "garble"
         self.mem_writes = 0
         self.garble_next = False
@@ -119,13 +120,15 @@ class Unit:
             idx = self.mem_writes
             self.mem_writes += 1
             f = self.answer_faults.get(idx)
+        stuck = f is None and (self.mem_writes - 1) in self.freeze_after and not (b.number != 0 and self.dtr0 == 2)
         if f == "no":
             self._bump_dtr0()
             return None
         if f == "other":
             value = (value ^ 0x5A) & 0xFF
         stored = b.write(self.dtr0, value)
-        self._bump_dtr0()
+        if not stuck:
+            self._bump_dtr0()
         if not reply or not stored:
             return None
         if f == "garble":
